@@ -224,7 +224,11 @@ func (d *Decoder) DecodeWithOption(v interface{}, optFuncs ...DecodeOptionFunc) 
 	if err != nil {
 		return err
 	}
+	d.s.ClearReadError()
 	if err := d.s.PrepareForDecode(); err != nil {
+		if rerr := d.s.ReadError(); rerr != nil {
+			return rerr
+		}
 		return err
 	}
 	s := d.s
@@ -232,7 +236,15 @@ func (d *Decoder) DecodeWithOption(v interface{}, optFuncs ...DecodeOptionFunc) 
 		optFunc(s.Option)
 	}
 	if err := dec.DecodeStream(s, 0, header.ptr); err != nil {
+		if rerr := s.ReadError(); rerr != nil {
+			// the input ended because the reader failed: report that, not the syntax error it caused
+			return rerr
+		}
 		return err
+	}
+	if rerr := s.ReadError(); rerr != nil {
+		// the reader failed while this value was being read; the value may be truncated
+		return rerr
 	}
 	s.Reset()
 	return nil
